@@ -194,6 +194,17 @@ Definition be_bytes (n : N) : bytes := be_bytes_fuel (N.size_nat n) n [].
 
 Definition of_be_bytes (b : bytes) : N := fold_left (fun acc x => acc * 256 + x) b 0.
 
+(* crypto.FromECDSAPub = elliptic.Marshal on secp256k1: the byte 4, then X and then Y, each
+   written big endian into EXACTLY 32 bytes (left-padded with zero bytes; readBits keeps the low
+   32 bytes).  crypto.UnmarshalPubkey accepts only strings of exactly 65 bytes. *)
+Definition pad_be (w : nat) (n : N) : bytes :=
+  let b := be_bytes n in repeat 0 (w - length b) ++ skipn (length b - w) b.
+
+Definition coord_len : nat := 32.
+Definition key_len : nat := 65.
+
+Definition marshal_pubkey (x y : N) : bytes := 4 :: pad_be coord_len x ++ pad_be coord_len y.
+
 (* ---------------------------------------------------------------------------------- *)
 (* base64.RawURLEncoding *)
 
@@ -279,7 +290,7 @@ Variable key : Type.                        (* secp256k1 public key accepted by 
 Variable cs : bytes -> list bool.           (* EIP-55: which hex digits of the address are upper-cased *)
 Variable enc_pt : point -> bytes.           (* P2Affine.Compress *)
 Variable dec_pt : bytes -> option point.    (* Uncompress, nil or not InG2 -> None *)
-Variable enc_key : key -> bytes.            (* crypto.FromECDSAPub *)
+Variable enc_key : key -> bytes.            (* crypto.FromECDSAPub: [marshal_pubkey] of the coordinates *)
 Variable dec_key : bytes -> option key.     (* crypto.UnmarshalPubkey *)
 
 (* common.Address.Hex(): "0x", lower-case hex, letters upper-cased where the hash says so *)
